@@ -1,7 +1,7 @@
 (* C28: the instance-management calls of the data writer honour their documented contract
-   for every sequence of events, outside two recorded classes (which are witnessed). *)
+   for every sequence of events. *)
 From DustDDS Require Import Base.Machine WriterHist.WriterModel WriterHist.WriterFacts WriterHist.WriterCorr
-  WriterHist.WriterLimits.
+  WriterHist.WriterLimits WriterHist.WriterReg.
 Open Scope Z_scope.
 
 (* ------------------------------------------------------------ finite sets *)
@@ -23,248 +23,270 @@ Proof.
 Qed.
 
 (* ---------------------------------------------------------- the invariant *)
+(* the specification-level state agrees with the `registered` flags and the pending slot *)
 Record Inv (keyed : bool) (w : writer) (g : ghost) : Prop := mkInv {
   inv_keyed : w_keyed w = keyed;
   inv_en : g_en g = w_enabled w;
-  inv_reg : forall h, mem h (g_reg g) = true -> has_inst h (w_insts w) = true;
-  inv_cover : forall h, has_inst h (w_insts w) = true ->
-                        mem h (g_reg g) || mem h (g_st1 g) || mem h (g_st2 g) = true;
+  inv_nodup : hnodup (w_insts w);
+  inv_reg : forall h, mem h (g_reg g) = is_reg h (w_insts w);
+  inv_park : g_park g = option_map (fun p => hof w (pd_key p)) (w_pending w);
   inv_pend : pend_ok w
 }.
 
-Lemma Inv_init keyed en q : Inv keyed (init keyed en q) (mkG en [] [] []).
-Proof. constructor; cbn; auto; try discriminate; intros p; discriminate. Qed.
-
-(* transformations that change neither the instance handles nor the flags *)
-Lemma Inv_silent keyed w w' g :
-  same_frame w w' -> hsame w w' -> pend_ok w' -> Inv keyed w g -> Inv keyed w' g.
-Proof.
-  intros F S P [Ik Ie Ir Ic _]. destruct F as [Fe Fk _].
-  constructor; try congruence.
-  - intros h Hh. rewrite S. auto.
-  - intros h Hh. rewrite S in Hh. auto.
-  - exact P.
-Qed.
+Lemma Inv_init keyed en q : Inv keyed (init keyed en q) (mkG en [] None).
+Proof. constructor; cbn; auto; try constructor. intros p; discriminate. Qed.
 
 Lemma khandle_hof keyed w k : w_keyed w = keyed -> khandle keyed k = hof w k.
 Proof. intros <-. reflexivity. Qed.
 
-Lemma cover_class keyed g o k :
-  op_key o = Some k ->
-  mem (khandle keyed k) (g_reg g) = false ->
-  mem (khandle keyed k) (g_reg g) || mem (khandle keyed k) (g_st1 g) || mem (khandle keyed k) (g_st2 g) = true ->
-  c28_class keyed g o <> 0%N.
-Proof.
-  intros Ho Hr Hc. unfold c28_class. rewrite Ho. rewrite Hr in Hc. cbn [orb] in Hc.
-  destruct (mem (khandle keyed k) (g_st1 g)); [discriminate|].
-  cbn [orb] in Hc. rewrite Hc. discriminate.
-Qed.
-
 Lemma rsl_eqb_refl r : rsl_eqb r r = true.
 Proof. destruct r as [|c|[h|]|]; cbn; auto using Z.eqb_refl. Qed.
-
-(* the ghost after a successful register / write of handle h *)
-Lemma Inv_registered keyed w w' g h :
-  Inv keyed w g -> same_frame w w' -> hmono w w' -> hsub w w' h ->
-  has_inst h (w_insts w') = true -> pend_ok w' ->
-  Inv keyed w' (mkG (g_en g) (add h (g_reg g)) (rem h (g_st1 g)) (rem h (g_st2 g))).
+Lemma rsl_eqb_eq a b : rsl_eqb a b = true -> a = b.
 Proof.
-  intros [Ik Ie Ir Ic _] [Fe Fk _] M S Hh P.
-  constructor; cbn [g_en g_reg g_st1 g_st2]; try congruence.
-  - intros x. rewrite mem_add. intros Hx. apply orb_true_iff in Hx.
-    destruct Hx as [Hx|Hx]; [apply Z.eqb_eq in Hx; now subst|auto].
-  - intros x Hx. rewrite mem_add, !mem_rem.
-    destruct (x =? h) eqn:E; [reflexivity|]. cbn [negb andb orb].
-    destruct (S x Hx) as [Hb|Hb]; [auto|]. apply Z.eqb_neq in E. contradiction.
-  - exact P.
+  destruct a as [|x|[x|]|], b as [|y|[y|]|]; cbn; try discriminate; auto;
+    intros H; apply Z.eqb_eq in H; congruence.
+Qed.
+
+(* generic re-establishment of the invariant *)
+Lemma Inv_intro keyed w w' g g' :
+  Inv keyed w g ->
+  w_keyed w' = w_keyed w -> g_en g' = w_enabled w' -> hnodup (w_insts w') ->
+  (forall h, mem h (g_reg g') = is_reg h (w_insts w')) ->
+  g_park g' = option_map (fun p => hof w (pd_key p)) (w_pending w') ->
+  pend_ok w' -> Inv keyed w' g'.
+Proof.
+  intros [Ik _ _ _ _ _] Hk He Hn Hr Hp Hpo. constructor; auto; [congruence|].
+  rewrite Hp. destruct (w_pending w'); [|reflexivity]. cbn [option_map]. unfold hof. now rewrite Hk.
+Qed.
+
+(* ------------------------------------------------ completions of the parked write *)
+Lemma Inv_check_timeout keyed now w w' g d :
+  Inv keyed w g -> check_timeout now w = (w', d) ->
+  Inv keyed w' (fold_left g_complete d g) /\
+  (d = [] \/ exists s e, d = [(s, E_TIMEOUT, e)] /\ g_park g <> None /\ w_pending w' = None).
+Proof.
+  intros I H. pose proof I as [Ik Ie In Ir Ip Ipo].
+  destruct (check_timeout_reg _ _ _ _ H) as (Hi & Hen & Hk & [[-> Hp]|(p & e & Hp & -> & Hp')]).
+  - split; [|now left]. cbn [fold_left].
+    refine (Inv_intro keyed w w' g g I Hk _ _ _ _ _).
+    + congruence.
+    + now rewrite Hi.
+    + intros h. now rewrite Hi.
+    + now rewrite Hp.
+    + intros q Hq. rewrite Hi. unfold hof. rewrite Hk. apply Ipo. congruence.
+  - split; [|right; exists (pd_slot p), e; repeat split; auto; rewrite Ip, Hp; discriminate].
+    cbn [fold_left g_complete]. rewrite Ip, Hp. cbn [option_map].
+    replace (E_TIMEOUT =? 0) with false by reflexivity.
+    refine (Inv_intro keyed w w' g _ I Hk _ _ _ _ _); cbn [g_en g_reg g_park].
+    + congruence.
+    + now rewrite Hi.
+    + intros h. now rewrite Hi.
+    + now rewrite Hp'.
+    + intros q Hq. congruence.
+Qed.
+
+Lemma Inv_process_pending keyed now w w' g d :
+  Inv keyed w g -> process_pending now w = (w', d) ->
+  Inv keyed w' (fold_left g_complete d g) /\ (g_park g = None -> d = []).
+Proof.
+  intros I H. pose proof I as [Ik Ie In Ir Ip Ipo].
+  destruct (process_pending_spec _ _ _ _ H Ipo) as ([Fe Fk _] & S & _).
+  destruct (process_pending_reg _ _ _ _ H In) as (N' & [(-> & Hp & Sr)|(p & c & Hp & -> & Hp' & Hr)]).
+  - split; [|auto]. cbn [fold_left].
+    refine (Inv_intro keyed w w' g g I Fk _ N' _ _ _).
+    + congruence.
+    + intros h. now rewrite Sr.
+    + now rewrite Hp.
+    + intros q Hq. unfold hof. rewrite Fk. rewrite S. apply Ipo. congruence.
+  - split; [|rewrite Ip, Hp; discriminate].
+    cbn [fold_left g_complete]. rewrite Ip, Hp. cbn [option_map].
+    refine (Inv_intro keyed w w' g _ I Fk _ N' _ _ _); cbn [g_en g_reg g_park].
+    + congruence.
+    + intros h. rewrite Hr. destruct (c =? 0); cbn [andb orb]; [rewrite mem_add, Ir; reflexivity|apply Ir].
+    + now rewrite Hp'.
+    + intros q Hq. congruence.
 Qed.
 
 (* ------------------------------------------------------- one mail, one reply *)
+Lemma negb_en keyed w g : Inv keyed w g -> negb (g_en g) = negb (w_enabled w).
+Proof. intros I. now rewrite (inv_en _ _ _ I). Qed.
+
 Lemma apply_op_ok keyed now w g o w' imm d :
   Inv keyed w g -> apply_op now w o = (w', imm, d) ->
-  (c28_check keyed g o imm = true \/ c28_class keyed g o <> 0%N) /\
-  Inv keyed w' (c28_next keyed g o imm).
+  c28_check keyed g o imm = true /\
+  Inv keyed w' (fold_left g_complete d (g_call keyed g o imm)) /\
+  (imm = Some RBlocked -> g_park g = None).
 Proof.
-  intros I H. pose proof I as [Ik Ie Ir Ic Ip].
+  intros I H. pose proof I as [Ik Ie In Ir Ip Ipo].
+  assert (NB : forall r : rsl, r <> RBlocked -> Some r = Some RBlocked -> g_park g = None)
+    by (intros r Hr [= ->]; contradiction).
   destruct o as [|k ts|k ts|k ts|k|slot k ts|r base count|r rel|r|]; cbn [apply_op] in H.
   - (* enable *)
-    injection H as <- <- <-. split; [left; reflexivity|]. cbn [c28_next].
-    constructor; cbn [g_en g_reg g_st1 g_st2]; wsimpl; auto.
+    injection H as <- <- <-. cbn [fold_left g_call c28_check]. split; [reflexivity|]. split; [|discriminate].
+    apply (Inv_intro _ w _ g _ I); cbn [g_en g_reg g_park]; wsimpl; auto; try congruence.
   - (* register *)
     destruct (svc_register w k ts) as [w1 r] eqn:E. injection H as <- <- <-.
-    unfold svc_register in E. cbn [c28_check c28_next].
-    destruct (w_enabled w) eqn:En; cbn [negb] in *;
-      [assert (Eg : negb (g_en g) = false) by (rewrite Ie; try rewrite En; reflexivity)
-      |assert (Eg : negb (g_en g) = true) by (rewrite Ie; try rewrite En; reflexivity)]; rewrite Eg.
-    2:{ injection E as <- <-. split; [left; apply rsl_eqb_refl|exact I]. }
+    unfold svc_register in E. cbn [c28_check fold_left]. rewrite (negb_en _ _ _ I).
+    destruct (w_enabled w) eqn:En; cbn [negb] in *.
+    2:{ injection E as <- <-. split; [apply rsl_eqb_refl|]. split; [exact I|discriminate]. }
     destruct keyed; rewrite Ik in E; cbn [negb] in *.
-    2:{ injection E as <- <-. split; [left; apply rsl_eqb_refl|exact I]. }
-    assert (Hk : hof w k = k) by (unfold hof; now rewrite Ik).
-    rewrite Hk in E.
+    2:{ injection E as <- <-. split; [apply rsl_eqb_refl|]. split; [exact I|discriminate]. }
+    assert (Hk : hof w k = k) by (unfold hof; now rewrite Ik). rewrite Hk in E.
     destruct (has_inst k (w_insts w)) eqn:Eh.
-    + injection E as <- <-. split; [left; cbn; now rewrite Z.eqb_refl|].
-      cbn [khandle].
-      apply Inv_registered with (w := w); auto.
-      * constructor; reflexivity.
-      * intros x Hx. wsimpl. now rewrite has_inst_upd.
-      * intros x Hx. wsimpl in Hx. rewrite has_inst_upd in Hx by reflexivity. now left.
-      * wsimpl. now rewrite has_inst_upd.
-      * intros p Hp. wsimpl in Hp. unfold hof. wsimpl. rewrite has_inst_upd by reflexivity.
-        apply Ip. exact Hp.
+    + injection E as <- <-. split; [cbn; now rewrite Z.eqb_refl|]. split; [|discriminate].
+      cbn [g_call khandle].
+      apply (Inv_intro _ w _ g _ I); cbn [g_en g_reg g_park]; wsimpl; auto; try congruence.
+      * unfold hnodup. now rewrite map_h_upd_inst.
+      * intros h. rewrite mem_add, Ir. symmetry. apply is_reg_upd_set; [intros i; split; reflexivity|exact Eh].
+      * intros p Hp. unfold hof. wsimpl. rewrite has_inst_upd by reflexivity. now apply Ipo.
     + destruct (len_lt (zlen (w_insts w)) (q_max_instances (w_qos w))).
-      * injection E as <- <-. split; [left; cbn; now rewrite Z.eqb_refl|].
-        cbn [khandle].
-        apply Inv_registered with (w := w); auto.
-        -- constructor; reflexivity.
-        -- intros x Hx. wsimpl. rewrite has_inst_app, Hx. reflexivity.
-        -- intros x Hx. wsimpl in Hx. rewrite has_inst_app in Hx. cbn [i_h] in Hx.
-           apply orb_true_iff in Hx. destruct Hx as [Hx|Hx]; [now left|right].
-           apply Z.eqb_eq in Hx. congruence.
-        -- wsimpl. rewrite has_inst_app. cbn [i_h]. rewrite Z.eqb_refl. apply orb_true_r.
-        -- intros p Hp. wsimpl in Hp. unfold hof. wsimpl. rewrite has_inst_app.
-           apply orb_true_iff. left. apply Ip. exact Hp.
-      * injection E as <- <-. split; [|exact I]. left.
+      * injection E as <- <-. split; [cbn; now rewrite Z.eqb_refl|]. split; [|discriminate].
+        cbn [g_call khandle].
+        apply (Inv_intro _ w _ g _ I); cbn [g_en g_reg g_park]; wsimpl; auto; try congruence.
+        -- now apply hnodup_push.
+        -- intros h. rewrite mem_add, Ir, is_reg_app. cbn [i_h i_reg]. rewrite andb_true_r, orb_comm.
+           now rewrite (Z.eqb_sym k h).
+        -- intros p Hp. unfold hof. wsimpl. rewrite has_inst_app. apply orb_true_iff. left. now apply Ipo.
+      * injection E as <- <-. split; [|split; [exact I|discriminate]].
         assert (Hm : mem k (g_reg g) = false).
-        { destruct (mem k (g_reg g)) eqn:Em; [|reflexivity]. apply Ir in Em. congruence. }
+        { rewrite Ir. destruct (is_reg k (w_insts w)) eqn:Em; [|reflexivity]. apply is_reg_has in Em. congruence. }
         rewrite Hm. cbn. reflexivity.
   - (* unregister *)
     destruct (svc_unregister w k ts) as [w1 r] eqn:E. injection H as <- <- <-.
-    unfold svc_unregister, svc_unreg_or_dispose in E. cbn [c28_check c28_next].
-    destruct (w_enabled w) eqn:En; cbn [negb] in *;
-      [assert (Eg : negb (g_en g) = false) by (rewrite Ie; try rewrite En; reflexivity)
-      |assert (Eg : negb (g_en g) = true) by (rewrite Ie; try rewrite En; reflexivity)]; rewrite Eg.
-    2:{ injection E as <- <-. split; [left; apply rsl_eqb_refl|exact I]. }
+    unfold svc_unregister, svc_unreg_or_dispose in E. cbn [c28_check fold_left]. rewrite (negb_en _ _ _ I).
+    destruct (w_enabled w) eqn:En; cbn [negb] in *.
+    2:{ injection E as <- <-. split; [apply rsl_eqb_refl|]. split; [exact I|discriminate]. }
     destruct keyed; rewrite Ik in E; cbn [negb] in *.
-    2:{ injection E as <- <-. split; [left; apply rsl_eqb_refl|exact I]. }
-    assert (Hk : hof w k = k) by (unfold hof; now rewrite Ik).
-    rewrite Hk in E.
-    destruct (has_inst k (w_insts w)) eqn:Eh.
-    + injection E as <- <-. split.
-      * destruct (mem k (g_reg g)) eqn:Em; [left; reflexivity|right].
-        apply cover_class with (k := k); [reflexivity| |]; cbn [khandle]; auto.
-      * cbn [khandle].
-        constructor; cbn [g_en g_reg g_st1 g_st2]; wsimpl; auto; try congruence.
-        -- intros x. rewrite mem_rem. intros Hx. apply andb_true_iff in Hx.
-           rewrite has_inst_upd by reflexivity. apply Ir. tauto.
-        -- intros x. rewrite has_inst_upd by reflexivity. intros Hx.
-           rewrite mem_rem, mem_add, mem_rem.
-           destruct (x =? k) eqn:Ex; cbn [negb andb orb]; [try reflexivity; try apply orb_true_r|].
-           apply Ic in Hx. exact Hx.
-        -- intros p Hp. wsimpl in Hp. unfold hof. wsimpl. rewrite has_inst_upd by reflexivity.
-           apply Ip. exact Hp.
-    + injection E as <- <-. split; [|exact I]. left.
-      assert (Hm : mem k (g_reg g) = false).
-      { destruct (mem k (g_reg g)) eqn:Em; [|reflexivity]. apply Ir in Em. congruence. }
-      rewrite Hm. reflexivity.
+    2:{ injection E as <- <-. split; [apply rsl_eqb_refl|]. split; [exact I|discriminate]. }
+    assert (Hk : hof w k = k) by (unfold hof; now rewrite Ik). rewrite Hk in E. rewrite Ir.
+    destruct (is_reg k (w_insts w)) eqn:Eh; injection E as <- <-.
+    + split; [reflexivity|]. split; [|discriminate]. cbn [g_call khandle].
+      apply (Inv_intro _ w _ g _ I); cbn [g_en g_reg g_park]; wsimpl; auto; try congruence.
+      * unfold hnodup. now rewrite map_h_upd_reg.
+      * intros h. rewrite mem_rem, Ir. symmetry. apply is_reg_updreg_clear; [intros i; split; reflexivity|exact In].
+      * intros p Hp. unfold hof. wsimpl. rewrite has_inst_in, map_h_upd_reg by reflexivity.
+        apply has_inst_in. now apply Ipo.
+    + split; [reflexivity|]. split; [exact I|discriminate].
   - (* dispose *)
     destruct (svc_dispose w k ts) as [w1 r] eqn:E. injection H as <- <- <-.
-    unfold svc_dispose, svc_unreg_or_dispose in E. cbn [c28_check c28_next].
-    destruct (w_enabled w) eqn:En; cbn [negb] in *;
-      [assert (Eg : negb (g_en g) = false) by (rewrite Ie; try rewrite En; reflexivity)
-      |assert (Eg : negb (g_en g) = true) by (rewrite Ie; try rewrite En; reflexivity)]; rewrite Eg.
-    2:{ injection E as <- <-. split; [left; apply rsl_eqb_refl|exact I]. }
+    unfold svc_dispose, svc_unreg_or_dispose in E. cbn [c28_check fold_left]. rewrite (negb_en _ _ _ I).
+    destruct (w_enabled w) eqn:En; cbn [negb] in *.
+    2:{ injection E as <- <-. split; [apply rsl_eqb_refl|]. split; [exact I|discriminate]. }
     destruct keyed; rewrite Ik in E; cbn [negb] in *.
-    2:{ injection E as <- <-. split; [left; apply rsl_eqb_refl|exact I]. }
-    assert (Hk : hof w k = k) by (unfold hof; now rewrite Ik).
-    rewrite Hk in E.
-    destruct (has_inst k (w_insts w)) eqn:Eh.
-    + injection E as <- <-. split.
-      * destruct (mem k (g_reg g)) eqn:Em; [left; reflexivity|right].
-        apply cover_class with (k := k); [reflexivity| |]; cbn [khandle]; auto.
-      * apply Inv_silent with (w := w); auto.
-        -- constructor; reflexivity.
-        -- intros x. wsimpl. now rewrite has_inst_upd.
-        -- intros p Hp. wsimpl in Hp. unfold hof. wsimpl. rewrite has_inst_upd by reflexivity.
-           apply Ip. exact Hp.
-    + injection E as <- <-. split; [|exact I]. left.
-      assert (Hm : mem k (g_reg g) = false).
-      { destruct (mem k (g_reg g)) eqn:Em; [|reflexivity]. apply Ir in Em. congruence. }
-      rewrite Hm. reflexivity.
+    2:{ injection E as <- <-. split; [apply rsl_eqb_refl|]. split; [exact I|discriminate]. }
+    assert (Hk : hof w k = k) by (unfold hof; now rewrite Ik). rewrite Hk in E. rewrite Ir.
+    destruct (is_reg k (w_insts w)) eqn:Eh; injection E as <- <-.
+    + split; [reflexivity|]. split; [|discriminate]. cbn [g_call].
+      apply (Inv_intro _ w _ g _ I); wsimpl; auto; try congruence.
+      * unfold hnodup. now rewrite map_h_upd_reg.
+      * intros h. rewrite Ir. symmetry. apply is_reg_updreg_keep. intros i Hi. rewrite Hi. split; reflexivity.
+      * intros p Hp. unfold hof. wsimpl. rewrite has_inst_in, map_h_upd_reg by reflexivity.
+        apply has_inst_in. now apply Ipo.
+    + split; [reflexivity|]. split; [exact I|discriminate].
   - (* lookup *)
-    injection H as <- <- <-. split; [|exact I].
-    unfold svc_lookup. cbn [c28_check].
-    destruct (w_enabled w) eqn:En; cbn [negb];
-      [assert (Eg : negb (g_en g) = false) by (rewrite Ie; try rewrite En; reflexivity)
-      |assert (Eg : negb (g_en g) = true) by (rewrite Ie; try rewrite En; reflexivity)]; rewrite Eg;
-      [|left; apply rsl_eqb_refl].
-    rewrite (khandle_hof keyed w k Ik). set (h := hof w k).
-    destruct (has_inst h (w_insts w)) eqn:Eh, (mem h (g_reg g)) eqn:Em.
-    + left. apply rsl_eqb_refl.
-    + right. apply cover_class with (k := k); [reflexivity| |];
-        rewrite (khandle_hof keyed w k Ik); fold h; auto.
-    + apply Ir in Em. congruence.
-    + left. apply rsl_eqb_refl.
+    injection H as <- <- <-. cbn [fold_left g_call]. split; [|split; [exact I|]].
+    2:{ intros [= Hx]. unfold svc_lookup in Hx. destruct (negb (w_enabled w)); discriminate. }
+    unfold svc_lookup. cbn [c28_check]. rewrite (negb_en _ _ _ I).
+    destruct (w_enabled w); cbn [negb]; [|apply rsl_eqb_refl].
+    rewrite (khandle_hof keyed w k Ik), Ir. apply rsl_eqb_refl.
   - (* write *)
     destruct (svc_write now w slot k ts) as [w1 r] eqn:E. injection H as <- <- <-.
-    destruct (svc_write_spec _ _ _ _ _ _ _ E) as (F & M & S & Hok & Hne & Hen & Hp & Hsame).
-    cbn [c28_check].
+    destruct (svc_write_spec _ _ _ _ _ _ _ E) as ([Fe Fk _] & M & S & Hok & Hne & Hen & Hp & Hsame).
+    destruct (svc_write_reg _ _ _ _ _ _ _ E In) as (N' & Rok & Rno & Pb & Pnb).
+    cbn [c28_check fold_left]. rewrite (negb_en _ _ _ I). split.
+    { destruct (w_enabled w) eqn:En; cbn [negb].
+      - destruct (Hen eq_refl) as [-> | [-> | [-> | ->]]]; reflexivity.
+      - destruct (Hne eq_refl) as [-> _]. reflexivity. }
     split.
-    + left. destruct (w_enabled w) eqn:En; cbn [negb];
-      [assert (Eg : negb (g_en g) = false) by (rewrite Ie; try rewrite En; reflexivity)
-      |assert (Eg : negb (g_en g) = true) by (rewrite Ie; try rewrite En; reflexivity)]; rewrite Eg.
-      * destruct (Hen eq_refl) as [-> | [-> | [-> | ->]]]; reflexivity.
-      * destruct (Hne eq_refl) as [-> _]. reflexivity.
-    + cbn [c28_next]. rewrite (khandle_hof keyed w k Ik). set (h := hof w k) in *.
-      assert (SILENT : w_insts w1 = w_insts w -> Inv keyed w1 g).
-      { intros Hs. apply Inv_silent with (w := w); auto. intros x. now rewrite Hs. }
-      destruct r as [|c|hh|].
-      * apply Inv_registered with (w := w); auto.
-      * destruct ((c =? E_OUT_OF_RESOURCES) && negb (mem h (g_reg g)) && negb (mem h (g_st1 g))) eqn:Ec.
-        -- apply andb_true_iff in Ec. destruct Ec as [Ec E3]. apply andb_true_iff in Ec.
-           destruct Ec as [E1 E2]. destruct F as [Fe Fk _].
-           constructor; cbn [g_en g_reg g_st1 g_st2]; try congruence; auto.
-           intros x Hx. rewrite mem_add. destruct (S x Hx) as [Hb| ->].
-           ++ apply Ic in Hb. apply orb_true_iff in Hb. destruct Hb as [Hb|Hb].
-              ** rewrite Hb. reflexivity.
-              ** rewrite Hb. rewrite !orb_true_r. reflexivity.
-           ++ rewrite Z.eqb_refl. cbn [orb]. apply orb_true_r.
-        -- destruct (c =? E_OUT_OF_RESOURCES) eqn:E5.
-           ++ (* refused, but the handle is already known to the ghost *)
-              cbn [andb] in Ec. destruct F as [Fe Fk _].
-              constructor; try congruence; auto.
-              intros x Hx. destruct (S x Hx) as [Hb| ->]; [auto|].
-              apply andb_false_iff in Ec. destruct Ec as [Ec|Ec]; apply negb_false_iff in Ec; rewrite Ec;
-                [reflexivity|rewrite orb_true_r; reflexivity].
-           ++ apply SILENT. apply Hsame; [discriminate|]. intros [= ->]. discriminate.
-      * apply SILENT. apply Hsame; discriminate.
-      * apply SILENT. apply Hsame; discriminate.
+    2:{ intros [= ->]. destruct (Pb eq_refl) as [Hpn _]. now rewrite Ip, Hpn. }
+    destruct r as [|c|hh|]; cbn [g_call]; rewrite ?(khandle_hof keyed w k Ik).
+    + refine (Inv_intro keyed w w1 g _ I Fk _ N' _ _ (Hp Ipo)); cbn [g_en g_reg g_park]; try congruence.
+      * intros h. rewrite mem_add, Ir. symmetry. apply (Rok eq_refl).
+      * rewrite Ip. f_equal. symmetry. apply Pnb. discriminate.
+    + refine (Inv_intro keyed w w1 g _ I Fk _ N' _ _ (Hp Ipo)); try congruence.
+      * intros h. rewrite Ir. symmetry. apply Rno. discriminate.
+      * rewrite Ip. f_equal. symmetry. apply Pnb. discriminate.
+    + refine (Inv_intro keyed w w1 g _ I Fk _ N' _ _ (Hp Ipo)); try congruence.
+      * intros h. rewrite Ir. symmetry. apply Rno. discriminate.
+      * rewrite Ip. f_equal. symmetry. apply Pnb. discriminate.
+    + destruct (Pb eq_refl) as (Hpn & p & Hp1 & Hpk).
+      refine (Inv_intro keyed w w1 g _ I Fk _ N' _ _ (Hp Ipo)); cbn [g_en g_reg g_park]; try congruence.
+      * intros h. rewrite Ir. symmetry. apply Rno. discriminate.
+      * rewrite Hp1. cbn [option_map]. now rewrite Hpk.
   - (* acknack *)
     destruct (process_pending now _) as [w1 dd] eqn:E. injection H as <- <- <-.
-    split; [left; reflexivity|]. cbn [c28_next].
+    split; [reflexivity|]. split; [|discriminate]. cbn [g_call].
     set (w0 := set_proxies w (on_acknack r base count (w_proxies w))) in *.
-    assert (P0 : pend_ok w0) by (intros p Hp; apply Ip; exact Hp).
-    destruct (process_pending_spec _ _ _ _ E P0) as (F & S & Pd).
     assert (I0 : Inv keyed w0 g).
-    { apply Inv_silent with (w := w); auto; [constructor; reflexivity|intros x; reflexivity]. }
-    apply Inv_silent with (w := w0); auto.
-    intros p Hp. destruct Pd as [Pd|Pd]; [|congruence].
-    rewrite (hof_frame _ _ _ F), S. apply P0. congruence.
-  - injection H as <- <- <-. split; [left; reflexivity|]. cbn [c28_next].
-    apply Inv_silent with (w := w); auto;
-      try (constructor; reflexivity); try (intros x; reflexivity); try (intros p Hp; apply Ip; exact Hp).
-  - injection H as <- <- <-. split; [left; reflexivity|]. cbn [c28_next].
-    apply Inv_silent with (w := w); auto;
-      try (constructor; reflexivity); try (intros x; reflexivity); try (intros p Hp; apply Ip; exact Hp).
-  - injection H as <- <- <-. split; [left; reflexivity|exact I].
+    { apply (Inv_intro keyed w w0 g g I); auto; intros p Hp; now apply Ipo. }
+    apply (Inv_process_pending keyed now w0 w1 g dd I0 E).
+  - injection H as <- <- <-. split; [reflexivity|]. split; [|discriminate]. cbn [fold_left g_call].
+    apply (Inv_intro keyed w _ g g I); wsimpl; auto; intros p Hp; now apply Ipo.
+  - injection H as <- <- <-. split; [reflexivity|]. split; [|discriminate]. cbn [fold_left g_call].
+    apply (Inv_intro keyed w _ g g I); wsimpl; auto; intros p Hp; now apply Ipo.
+  - injection H as <- <- <-. split; [reflexivity|]. split; [exact I|discriminate].
 Qed.
 
 (* ------------------------------------------------------------ one event *)
+Lemma g_timeout g s e :
+  g_complete g (s, E_TIMEOUT, e) = match g_park g with Some _ => mkG (g_en g) (g_reg g) None | None => g end.
+Proof. unfold g_complete. destruct (g_park g); reflexivity. Qed.
+
+Lemma g_call_commute keyed g o imm s e :
+  imm <> Some RBlocked -> g_park g <> None ->
+  g_call keyed (g_complete g (s, E_TIMEOUT, e)) o imm = g_complete (g_call keyed g o imm) (s, E_TIMEOUT, e).
+Proof.
+  intros Hb Hp. rewrite !g_timeout. destruct (g_park g) as [h|] eqn:Ep; [|contradiction].
+  destruct o as [|k ts|k ts|k ts|k|slot k ts|r base count|r rel|r|]; cbn [g_call g_en g_reg g_park];
+    try (destruct imm as [[|c|[hh|]|]|]; cbn [g_park g_en g_reg]; try rewrite Ep; try reflexivity; contradiction).
+Qed.
+
+Lemma check_timeout_indep keyed g o imm s e :
+  c28_check keyed (g_complete g (s, E_TIMEOUT, e)) o imm = c28_check keyed g o imm.
+Proof. rewrite g_timeout. destruct (g_park g); reflexivity. Qed.
+
 Lemma step_ok keyed w g e w' o :
   Inv keyed w g -> step w e = (w', o) ->
-  (c28_check keyed g (e_op e) (o_imm o) = true \/ c28_class keyed g (e_op e) <> 0%N) /\
-  Inv keyed w' (c28_next keyed g (e_op e) (o_imm o)).
+  c28_check keyed g (e_op e) (o_imm o) = true /\ Inv keyed w' (c28_next keyed g (e_op e) o).
 Proof.
   intros I H. unfold step in H.
   destruct (catch_up (e_now e) w) as [w0 d0] eqn:E0.
   destruct (apply_op (e_now e) w0 (e_op e)) as [[w1 imm] d1] eqn:E1.
   destruct (tail (e_now e) w1) as [w2 d2] eqn:E2.
-  injection H as <- <-. cbn [o_imm].
-  destruct (catch_up_spec _ _ _ _ E0 (inv_pend _ _ _ I)) as (F0 & S0 & P0).
-  assert (I0 : Inv keyed w0 g) by (eapply Inv_silent; eauto).
-  destruct (apply_op_ok _ _ _ _ _ _ _ _ I0 E1) as [C I1].
-  split; [exact C|].
-  destruct (tail_spec _ _ _ _ E2 (inv_pend _ _ _ I1)) as (F2 & S2 & P2).
-  eapply Inv_silent; eauto.
+  injection H as <- <-. cbn [o_imm o_done].
+  unfold catch_up in E0. destruct (Inv_check_timeout _ _ _ _ _ _ I E0) as [I0 D0].
+  destruct (apply_op_ok _ _ _ _ _ _ _ _ I0 E1) as (C & I1 & B1).
+  (* the tail *)
+  unfold tail in E2.
+  destruct (check_timeout (e_now e) (remove_stale (e_now e) w1)) as [wa da] eqn:Ea.
+  destruct (process_pending (e_now e) wa) as [wb db] eqn:Eb. injection E2 as <- <-.
+  set (g1 := fold_left g_complete d1 (g_call keyed (fold_left g_complete d0 g) (e_op e) imm)) in *.
+  assert (Ir1 : Inv keyed (remove_stale (e_now e) w1) g1).
+  { destruct (remove_stale_spec (e_now e) w1) as ([Fe Fk _] & S & P & Hi & _).
+    pose proof I1 as [Ik Ie In Ir Ip Ipo].
+    refine (Inv_intro keyed w1 _ g1 g1 I1 Fk _ _ _ _ _).
+    - congruence. - now rewrite Hi. - intros h. now rewrite Hi. - now rewrite P.
+    - intros p Hp. rewrite Hi. unfold hof. rewrite Fk. apply Ipo. congruence. }
+  destruct (Inv_check_timeout _ _ _ _ _ _ Ir1 Ea) as [Ia _].
+  destruct (Inv_process_pending _ _ _ _ _ _ Ia Eb) as [Ib _].
+  (* the sequential ghost is c28_next *)
+  assert (SEQ : c28_next keyed g (e_op e) (mkOut imm (d0 ++ d1 ++ (da ++ db))) =
+                fold_left g_complete db (fold_left g_complete da g1)).
+  { unfold c28_next. cbn [o_imm o_done]. subst g1.
+    destruct D0 as [-> | (s & t & -> & Hpk & Hp0)].
+    - cbn [app fold_left]. cbn [fold_left] in B1.
+      destruct (g_park g) as [h|] eqn:Ep.
+      + destruct imm as [[|c|hh|]|]; try (rewrite !fold_left_app; reflexivity).
+        specialize (B1 eq_refl). discriminate.
+      + rewrite !fold_left_app. reflexivity.
+    - cbn [app fold_left]. destruct (g_park g) as [h|] eqn:Ep; [|contradiction].
+      destruct imm as [[|c|hh|]|];
+        try (cbn [fold_left]; rewrite g_call_commute by (try discriminate; rewrite Ep; discriminate);
+             rewrite !fold_left_app; reflexivity).
+      rewrite !fold_left_app. reflexivity. }
+  rewrite SEQ. split; [|exact Ib].
+  destruct D0 as [-> | (s & t & -> & _)]; [exact C|].
+  cbn [fold_left] in C. now rewrite check_timeout_indep in C.
 Qed.
 
 (* the model's own trace, in the shape of a correspondence case *)
@@ -275,40 +297,28 @@ Lemma run_cons w e t :
 Proof. reflexivity. Qed.
 
 Lemma walk_ok keyed evs : forall w g,
-  Inv keyed w g -> ~ In 0%N (c28_walk keyed g (model_trace w evs)).
+  Inv keyed w g -> existsb (fun b => b) (c28_walk keyed g (model_trace w evs)) = false.
 Proof.
-  induction evs as [|e t IH]; intros w g I; [intros []|].
+  induction evs as [|e t IH]; intros w g I; [reflexivity|].
   unfold model_trace. rewrite run_cons.
   destruct (step w e) as [w1 o] eqn:Es. destruct (run w1 t) as [w2 os] eqn:Er.
-  cbn [snd combine c28_walk].
-  destruct (step_ok _ _ _ _ _ _ I Es) as [C I1].
-  specialize (IH w1 _ I1). unfold model_trace in IH. rewrite Er in IH. cbn [snd] in IH.
-  destruct (c28_check keyed g (e_op e) (o_imm o)) eqn:Ec; [exact IH|].
-  intros [Hin|Hin]; [|exact (IH Hin)].
-  destruct C as [C|C]; [discriminate|]. apply C. exact Hin.
+  cbn [snd combine c28_walk existsb].
+  destruct (step_ok _ _ _ _ _ _ I Es) as [C I1]. rewrite C. cbn [negb orb].
+  specialize (IH w1 _ I1). unfold model_trace in IH. now rewrite Er in IH.
 Qed.
 
-(* Every reply of the model that breaks the contract belongs to a recorded class. *)
-Theorem contract_outside_known_classes keyed enabled q evs :
-  ~ In 0%N (c28_walk keyed (mkG enabled [] [] []) (model_trace (init keyed enabled q) evs)).
+(* For every run, every reply of the model honours the contract. *)
+Theorem contract_for_all_runs keyed enabled q evs :
+  existsb (fun b => b) (c28_walk keyed (mkG enabled [] None) (model_trace (init keyed enabled q) evs)) = false.
 Proof. apply walk_ok. apply Inv_init. Qed.
 
-(* in terms of the correspondence functions: a model-generated case is accepted by the
-   oracle or classified as known *)
 Definition model_case (keyed enabled : bool) (q : qos) (evs : list ev) : W_case :=
-  mkWC keyed enabled q (model_trace (init keyed enabled q) evs) None None.
+  mkWC (qos_consistent q) keyed enabled q (model_trace (init keyed enabled q) evs) None None.
 
-Theorem oracle_or_known keyed enabled q evs :
-  C28_oracle_ok (model_case keyed enabled q evs) = true \/
-  C28_known (model_case keyed enabled q evs) <> 0%N.
+Theorem model_case_accepted keyed enabled q evs : C28_oracle_ok (model_case keyed enabled q evs) = true.
 Proof.
-  pose proof (contract_outside_known_classes keyed enabled q evs) as H.
-  unfold C28_oracle_ok, C28_known, model_case, ghost0, hist_ok. cbn [wc_keyed wc_enabled0 wc_evs wc_hist].
-  destruct (c28_walk keyed (mkG enabled [] [] []) (model_trace (init keyed enabled q) evs)) as [|c l] eqn:E;
-    [now left|right].
-  destruct (existsb (N.eqb 0) (c :: l)) eqn:Ex.
-  - apply existsb_exists in Ex. destruct Ex as (x & Hx & Hx0). apply N.eqb_eq in Hx0. subst x. contradiction.
-  - cbn [hd]. intros ->. apply H. now left.
+  unfold C28_oracle_ok, model_case, ghost0, hist_ok. cbn [wc_keyed wc_enabled0 wc_evs wc_hist].
+  now rewrite contract_for_all_runs.
 Qed.
 
 (* ------------------------------------------------ the state after a trace *)
@@ -323,16 +333,10 @@ Proof.
   specialize (IH w1 _ I1). unfold model_trace in IH. rewrite Er in IH. exact IH.
 Qed.
 
-Lemma rsl_eqb_eq a b : rsl_eqb a b = true -> a = b.
-Proof.
-  destruct a as [|x|[x|]|], b as [|y|[y|]|]; cbn; try discriminate; auto;
-    intros H; apply Z.eqb_eq in H; congruence.
-Qed.
-
 Section AfterTrace.
   Variables (keyed enabled : bool) (q : qos) (evs : list ev).
   Let w := fst (run (init keyed enabled q) evs).
-  Let g := c28_ghost keyed (mkG enabled [] [] []) (model_trace (init keyed enabled q) evs).
+  Let g := c28_ghost keyed (mkG enabled [] None) (model_trace (init keyed enabled q) evs).
 
   Lemma after_inv : Inv keyed w g.
   Proof. apply run_inv. apply Inv_init. Qed.
@@ -340,29 +344,43 @@ Section AfterTrace.
   (* lookup_instance returns the handle exactly for registered instances *)
   Lemma lookup_iff_registered k :
     g_en g = true ->
-    mem (khandle keyed k) (g_st1 g) = false -> mem (khandle keyed k) (g_st2 g) = false ->
     svc_lookup w k = RHandle (if mem (khandle keyed k) (g_reg g) then Some (khandle keyed k) else None).
   Proof.
-    intros En H1 H2.
-    destruct (apply_op_ok keyed 0 w g (OLookup k) w (Some (svc_lookup w k)) [] after_inv eq_refl) as [[C|C] _].
-    - cbn [c28_check] in C. rewrite En in C. cbn [negb] in C. now apply rsl_eqb_eq.
-    - exfalso. apply C. unfold c28_class. cbn [op_key]. now rewrite H1, H2.
+    intros En.
+    destruct (apply_op_ok keyed 0 w g (OLookup k) w (Some (svc_lookup w k)) [] after_inv eq_refl) as [C _].
+    cbn [c28_check] in C. rewrite En in C. cbn [negb] in C. now apply rsl_eqb_eq.
   Qed.
 
   (* dispose / unregister_instance of an instance that is not registered: BadParameter, no effect *)
   Lemma unknown_instance_bad_parameter k ts :
-    g_en g = true -> keyed = true ->
-    mem k (g_reg g) = false -> mem k (g_st1 g) = false -> mem k (g_st2 g) = false ->
+    g_en g = true -> keyed = true -> mem k (g_reg g) = false ->
     svc_unregister w k ts = (w, RErr E_BAD_PARAMETER) /\ svc_dispose w k ts = (w, RErr E_BAD_PARAMETER).
   Proof.
-    intros En Hk H0 H1 H2. pose proof after_inv as I.
-    assert (Hn : has_inst k (w_insts w) = false).
-    { destruct (has_inst k (w_insts w)) eqn:E; [|reflexivity].
-      apply (inv_cover _ _ _ I) in E. rewrite H0, H1, H2 in E. discriminate. }
+    intros En Hk H0. pose proof after_inv as I.
     unfold svc_unregister, svc_dispose, svc_unreg_or_dispose.
     rewrite <- (inv_en _ _ _ I), En. cbn [negb].
     rewrite (inv_keyed _ _ _ I), Hk. cbn [negb].
-    unfold hof. rewrite (inv_keyed _ _ _ I), Hk, Hn. split; reflexivity.
+    unfold hof. rewrite (inv_keyed _ _ _ I), Hk, <- (inv_reg _ _ _ I), H0. split; reflexivity.
+  Qed.
+
+  (* unregister_instance really unregisters: afterwards the instance is unknown again *)
+  Lemma unregister_then_unknown k ts w1 :
+    svc_unregister w k ts = (w1, ROk) ->
+    forall ts', svc_lookup w1 k = RHandle None /\
+                svc_unregister w1 k ts' = (w1, RErr E_BAD_PARAMETER) /\
+                svc_dispose w1 k ts' = (w1, RErr E_BAD_PARAMETER).
+  Proof.
+    intros H ts'. pose proof after_inv as I. pose proof I as [Ik Ie In Ir Ip Ipo].
+    unfold svc_unregister, svc_unreg_or_dispose in H.
+    destruct (w_enabled w) eqn:En; cbn [negb] in H; [|discriminate].
+    destruct (w_keyed w) eqn:Ek; cbn [negb] in H; [|discriminate].
+    assert (Hk : hof w k = k) by (unfold hof; now rewrite Ek). rewrite Hk in H.
+    destruct (is_reg k (w_insts w)) eqn:Er; [|discriminate]. injection H as <-.
+    match goal with |- context [set_insts _ ?l] => set (l1 := l) end.
+    assert (Hn : is_reg k l1 = false).
+    { subst l1. rewrite is_reg_updreg_clear; [now rewrite Z.eqb_refl|intros i; split; reflexivity|exact In]. }
+    unfold svc_lookup, svc_unregister, svc_dispose, svc_unreg_or_dispose, hof. wsimpl.
+    rewrite En, Ek. cbn [negb]. rewrite Hn. repeat split.
   Qed.
 End AfterTrace.
 
@@ -370,16 +388,18 @@ End AfterTrace.
 (* register_instance is idempotent: a second call returns the same handle, which is the handle of
    the key, and changes nothing but the instance's last_write_time *)
 Definition forget_lwt (w : writer) : writer :=
-  set_insts w (map (fun i => mkInst (i_h i) None (i_samples i)) (w_insts w)).
+  set_insts w (map (fun i => mkInst (i_h i) None (i_samples i) (i_reg i)) (w_insts w)).
 
-Lemma map_upd_lwt h f l :
-  (forall i, i_h (f i) = i_h i /\ i_samples (f i) = i_samples i) ->
-  map (fun i => mkInst (i_h i) None (i_samples i)) (upd_inst h f l) =
-  map (fun i => mkInst (i_h i) None (i_samples i)) l.
+Lemma map_upd_lwt h ts l s :
+  find_inst h l = Some s -> i_reg s = true ->
+  map (fun i => mkInst (i_h i) None (i_samples i) (i_reg i))
+      (upd_inst h (fun i => mkInst (i_h i) (Some ts) (i_samples i) true) l) =
+  map (fun i => mkInst (i_h i) None (i_samples i) (i_reg i)) l.
 Proof.
-  intros Hf. induction l as [|i t IH]; cbn [upd_inst map]; [reflexivity|].
-  destruct (i_h i =? h); cbn [map]; [|now rewrite IH].
-  destruct (Hf i) as [-> ->]. reflexivity.
+  unfold find_inst. induction l as [|i t IH]; cbn [find upd_inst map]; [discriminate|].
+  destruct (i_h i =? h); cbn [map].
+  - intros [= <-] Hr. cbn [i_h i_samples i_reg]. now rewrite Hr.
+  - intros Hf Hr. now rewrite (IH Hf Hr).
 Qed.
 
 Lemma register_idempotent w k ts1 ts2 w1 h :
@@ -391,17 +411,21 @@ Proof.
   destruct (w_enabled w) eqn:En; cbn [negb]; [|discriminate].
   destruct (w_keyed w) eqn:Ek; cbn [negb]; [|discriminate].
   assert (Hk : hof w k = k) by (unfold hof; now rewrite Ek). rewrite Hk.
-  assert (SECOND : forall l, has_inst k l = true ->
+  assert (SECOND : forall l s, find_inst k l = Some s -> i_reg s = true ->
      let w1 := set_insts w l in
      exists w2, svc_register w1 k ts2 = (w2, RHandle (Some k)) /\ forget_lwt w2 = forget_lwt w1).
-  { intros l Hl w1'. unfold svc_register. subst w1'. wsimpl. rewrite En, Ek. cbn [negb].
-    unfold hof. wsimpl. rewrite Ek, Hl. eexists. split; [reflexivity|].
-    unfold forget_lwt. wsimpl. rewrite map_upd_lwt; [reflexivity|]. intros i. split; reflexivity. }
+  { intros l s Hl Hr w1'. unfold svc_register. subst w1'. wsimpl. rewrite En, Ek. cbn [negb].
+    unfold hof. wsimpl. rewrite Ek.
+    assert (Hh : has_inst k l = true) by (apply has_inst_find; eauto). rewrite Hh.
+    eexists. split; [reflexivity|].
+    unfold forget_lwt. wsimpl. now rewrite (map_upd_lwt k ts2 l s Hl Hr). }
   destruct (has_inst k (w_insts w)) eqn:Eh.
-  - intros [= <- <-]. split; [reflexivity|]. apply SECOND. now rewrite has_inst_upd.
+  - intros [= <- <-]. split; [reflexivity|].
+    destruct (proj1 (has_inst_find _ _) Eh) as [s0 Hs0].
+    eapply SECOND; [rewrite find_upd_same by reflexivity; rewrite Hs0; reflexivity|reflexivity].
   - destruct (len_lt (zlen (w_insts w)) (q_max_instances (w_qos w))); [|discriminate].
-    intros [= <- <-]. split; [reflexivity|]. apply SECOND.
-    rewrite has_inst_app. cbn [i_h]. rewrite Z.eqb_refl. apply orb_true_r.
+    intros [= <- <-]. split; [reflexivity|].
+    eapply SECOND; [apply find_inst_app_new; [exact Eh|reflexivity]|reflexivity].
 Qed.
 
 (* instance operations on a keyless type: IllegalOperation, no effect *)
@@ -426,6 +450,14 @@ Lemma not_enabled_everywhere w now slot k ts :
 Proof.
   intros En. unfold svc_register, svc_unregister, svc_dispose, svc_unreg_or_dispose, svc_lookup, svc_write.
   rewrite En. cbn [negb]. repeat split.
+Qed.
+
+Lemma has_inst_updreg x h f l : (forall i, i_h (f i) = i_h i) -> has_inst x (upd_reg h f l) = has_inst x l.
+Proof.
+  intros Hf. destruct (has_inst x l) eqn:E.
+  - apply has_inst_in. rewrite map_h_upd_reg by exact Hf. now apply has_inst_in.
+  - destruct (has_inst x (upd_reg h f l)) eqn:E2; [|reflexivity].
+    apply has_inst_in in E2. rewrite map_h_upd_reg in E2 by exact Hf. apply has_inst_in in E2. congruence.
 Qed.
 
 (* ---- which states are enabled / keyed: the flags along a run ---- *)
@@ -458,16 +490,16 @@ Proof.
       rewrite orb_false_r. unfold svc_unregister, svc_unreg_or_dispose in E.
       destruct (w_enabled w0) eqn:En0; cbn [negb] in E; [|injection E as <- <-; repeat split; auto; try (intros x; auto; fail)].
       destruct (w_keyed w0) eqn:Ek; cbn [negb] in E; [|injection E as <- <-; repeat split; auto; try (intros x; auto; fail)].
-      destruct (has_inst (hof w0 k) (w_insts w0)); injection E as <- <-; wsimpl; repeat split; auto; try (intros x; auto; fail).
-      * intros p Hp. wsimpl in Hp. unfold hof. wsimpl. rewrite has_inst_upd by reflexivity. now apply P0.
-      * intros x Hx. wsimpl. now rewrite has_inst_upd.
+      destruct (is_reg (hof w0 k) (w_insts w0)); injection E as <- <-; wsimpl; repeat split; auto; try (intros x; auto; fail).
+      * intros p Hp. wsimpl in Hp. unfold hof. wsimpl. rewrite has_inst_updreg by reflexivity. now apply P0.
+      * intros x Hx. wsimpl. now rewrite has_inst_updreg.
     - destruct (svc_dispose w0 k ts) as [wx rx] eqn:E. injection E1 as <- <- <-.
       rewrite orb_false_r. unfold svc_dispose, svc_unreg_or_dispose in E.
       destruct (w_enabled w0) eqn:En0; cbn [negb] in E; [|injection E as <- <-; repeat split; auto; try (intros x; auto; fail)].
       destruct (w_keyed w0) eqn:Ek; cbn [negb] in E; [|injection E as <- <-; repeat split; auto; try (intros x; auto; fail)].
-      destruct (has_inst (hof w0 k) (w_insts w0)); injection E as <- <-; wsimpl; repeat split; auto; try (intros x; auto; fail).
-      * intros p Hp. wsimpl in Hp. unfold hof. wsimpl. rewrite has_inst_upd by reflexivity. now apply P0.
-      * intros x Hx. wsimpl. now rewrite has_inst_upd.
+      destruct (is_reg (hof w0 k) (w_insts w0)); injection E as <- <-; wsimpl; repeat split; auto; try (intros x; auto; fail).
+      * intros p Hp. wsimpl in Hp. unfold hof. wsimpl. rewrite has_inst_updreg by reflexivity. now apply P0.
+      * intros x Hx. wsimpl. now rewrite has_inst_updreg.
     - injection E1 as <- <- <-. rewrite orb_false_r. repeat split; auto; try (intros x; auto; fail).
     - destruct (svc_write (e_now e) w0 slot k ts) as [wx rx] eqn:E. injection E1 as <- <- <-.
       destruct (svc_write_spec _ _ _ _ _ _ _ E) as ([Fe Fk Fq] & M & _ & _ & _ & _ & Hp & _).
@@ -556,7 +588,7 @@ Proof.
   destruct (pop_front_spec w h) as ([_ _ Fq] & _ & _ & Sh).
   assert (Hh : has_inst h (w_insts (pop_front w h)) = true).
   { rewrite Sh. apply has_inst_find. eauto. }
-  unfold would_exceed. rewrite Fq, Hh, Hq. cbn [negb andb orb].
+  unfold would_exceed, inst_refused, mspi_hit, ms_hit. rewrite Fq, Hh, Hq. cbn [negb andb orb].
   assert (M : match q_mspi (w_qos w) with
               | Some m => if wrap_i32 d <=? m then false
                           else usize_of_i32 m <=? zlen (samples_of h (w_insts (pop_front w h)))
@@ -564,6 +596,7 @@ Proof.
   { destruct (q_mspi (w_qos w)) as [m|] eqn:Em; [|reflexivity].
     destruct (Hm m eq_refl) as [Hm0 Hm1].
     unfold qos_consistent in Hc. rewrite Hq, Em in Hc. apply andb_true_iff in Hc. destruct Hc as [_ Hc].
+    apply andb_true_iff in Hc. destruct Hc as [_ Hc].
     apply negb_true_iff, Z.ltb_ge in Hc. rewrite usize_nonneg in Hc by exact Hm0.
     assert (Hd0 : 0 <= d) by (rewrite <- Hd; apply zlen_nonneg).
     assert (W : wrap_i32 d = d).
@@ -581,23 +614,15 @@ Qed.
 
 Lemma svc_write_refused_stores_nothing now w slot k ts w' :
   Lim w -> qos_wf (w_qos w) ->
-  svc_write now w slot k ts = (w', RErr E_OUT_OF_RESOURCES) ->
-  w_changes w' = w_changes w /\ w_last_sn w' = w_last_sn w /\
-  (forall x, samples_of x (w_insts w') = samples_of x (w_insts w)) /\
-  w_pending w' = w_pending w /\
-  (has_inst (hof w k) (w_insts w) = true -> w' = w).
+  svc_write now w slot k ts = (w', RErr E_OUT_OF_RESOURCES) -> w' = w.
 Proof.
   intros L WF H. unfold svc_write in H.
   destruct (w_enabled w); cbn [negb] in H; [|discriminate].
   set (h := hof w k) in *.
-  assert (DIRECT : (let '(w'', c) := ent_write w h ts now slot in (w'', rsl_of_code c)) = (w', RErr E_OUT_OF_RESOURCES) ->
-     w_changes w' = w_changes w /\ w_last_sn w' = w_last_sn w /\
-     (forall x, samples_of x (w_insts w') = samples_of x (w_insts w)) /\
-     w_pending w' = w_pending w /\ (has_inst h (w_insts w) = true -> w' = w)).
+  assert (DIRECT : (let '(w'', c) := ent_write w h ts now slot in (w'', rsl_of_code c)) = (w', RErr E_OUT_OF_RESOURCES) -> w' = w).
   { destruct (ent_write w h ts now slot) as [w'' c] eqn:E. intros [= <- Hc].
     assert (c <> 0) by (intros ->; discriminate).
-    destruct (ent_write_refused_stores_nothing _ _ _ _ _ _ _ E H0) as (A & B & C & _ & _ & P & S).
-    repeat split; auto. }
+    eapply ent_write_refused_stores_nothing; eauto. }
   destruct (q_hist (w_qos w)) as [|d] eqn:Hq; [exact (DIRECT H)|].
   destruct (smallest_full d h (w_insts w)) as [sn|] eqn:Es; [|exact (DIRECT H)].
   destruct (smallest_full_inv _ _ _ _ Es) as (s & rest & Hf & Hs & Hd).
@@ -608,27 +633,17 @@ Proof.
     discriminate.
 Qed.
 
-(* ------------------------------------------------------------ witnesses *)
+
 Definition q_plain : qos := mkQos KeepAll true None None None None (Some 100000000) true.
 Definition ev0 (o : op) : ev := mkEv 1000000000 o.
-
-(* D31: after unregister_instance the instance is still found, and can be unregistered again *)
-Lemma lookup_after_unregister_refuted :
-  let evs := [ev0 (ORegister 1 0); ev0 (OUnregister 1 0)] in
-  let w := fst (run (init true true q_plain) evs) in
-  let g := c28_ghost true (mkG true [] [] []) (model_trace (init true true q_plain) evs) in
-  mem 1 (g_reg g) = false /\ svc_lookup w 1 = RHandle (Some 1) /\
-  snd (svc_unregister w 1 0) = ROk /\ snd (svc_dispose w 1 0) = ROk.
-Proof. vm_compute. repeat split. Qed.
-
-(* a write refused with OutOfResources registers its instance *)
 Definition q_tight : qos := mkQos KeepAll true (Some 1) (Some 2) (Some 1) None (Some 100000000) true.
-Lemma refused_write_registers_instance :
-  let w := fst (run (init true true q_tight) [ev0 (OWrite 0 1 0)]) in
-  let '(w', r) := svc_write 1000000000 w 1 2 0 in
-  svc_lookup w 2 = RHandle None /\ r = RErr E_OUT_OF_RESOURCES /\
-  svc_lookup w' 2 = RHandle (Some 2) /\ w_changes w' = w_changes w.
-Proof. vm_compute. repeat split. Qed.
+
+(* a writer can only be created with a consistent QoS, and that means depth >= 1 *)
+Lemma consistent_depth_positive q d : qos_consistent q = true -> q_hist q = KeepLast d -> 0 <= d -> 1 <= d.
+Proof.
+  unfold qos_consistent. intros H Hq Hd. rewrite Hq in H. apply andb_true_iff in H. destruct H as [_ H].
+  apply andb_true_iff in H. destruct H as [H _]. apply negb_true_iff, Z.eqb_neq in H. lia.
+Qed.
 
 (* ------------------------------------- the statements in their published form *)
 Lemma register_forever keyed enabled q evs0 k ts0 evs ts :
@@ -689,11 +704,7 @@ Lemma svc_write_refused_after_trace keyed enabled q evs now slot k ts w' :
   (forall m, q_mspi q = Some m -> 0 <= m <= i32_max) ->
   (forall ms, q_max_samples q = Some ms -> 0 <= ms) ->
   let w := fst (run (init keyed enabled q) evs) in
-  svc_write now w slot k ts = (w', RErr E_OUT_OF_RESOURCES) ->
-  w_changes w' = w_changes w /\ w_last_sn w' = w_last_sn w /\
-  (forall x, samples_of x (w_insts w') = samples_of x (w_insts w)) /\
-  w_pending w' = w_pending w /\
-  (has_inst (hof w k) (w_insts w) = true -> w' = w).
+  svc_write now w slot k ts = (w', RErr E_OUT_OF_RESOURCES) -> w' = w.
 Proof.
   intros Hc Hm Hms w H. apply (svc_write_refused_stores_nothing now w slot k ts w'); auto.
   - apply limits_invariant.
